@@ -188,9 +188,11 @@ func (r *atRun) checkC02Episode(o *episodeObs) {
 		w.Sim.Probe("c02-badconn-retried-by-database-sql")
 		return
 	}
+	// a registration rule counts when it actually fired in this episode (a
+	// shrunk program may never reach the k-th registration)
 	tcFault := false
 	for _, rule := range ep.TCRules {
-		if rule.Code == simtc.TBranchRegister {
+		if rule.Code == simtc.TBranchRegister && w.Sim.Faults["tc-"+rule.Action] > o.faults0["tc-"+rule.Action] {
 			tcFault = true
 		}
 	}
@@ -222,6 +224,30 @@ func (r *atRun) checkC02Episode(o *episodeObs) {
 	// unless the COMMIT was applied and only its reply was lost (then the undo
 	// log was committed with it and the rollback must have restored the rows)
 	d := simdb.Diff(appSnapshot(o.s0), appSnapshot(o.final))
+	// when the coordinator could not be reached any more (the injected fault cost
+	// the session) the global rollback was never carried out: the rows of local
+	// transactions that HAD committed before are still there, legitimately; only
+	// the rows of the failed local transaction must not be
+	if g := w.TC.Globals[o.xid]; g != nil && g.Status != simtc.GSRollbacked && g.Status != simtc.GSCommitted {
+		committedKeys := map[string]bool{}
+		for _, t := range splitLocalTxns(j) {
+			if t.committed && t.undoIns != nil {
+				for _, wr := range appWrites(t.writes) {
+					committedKeys[wr.Table+"|"+wr.Key] = true
+				}
+			}
+		}
+		var rest []simdb.DiffEntry
+		for _, e := range d {
+			if !committedKeys[e.Table+"|"+e.Key] {
+				rest = append(rest, e)
+			}
+		}
+		if len(rest) != len(d) {
+			w.Sim.Probe("c02-global-rollback-not-delivered")
+		}
+		d = rest
+	}
 	if applied {
 		// the COMMIT took effect but its reply was lost: no client can both report
 		// the failure it saw and have "nothing committed"; the clause does not apply
@@ -257,9 +283,23 @@ func (r *atRun) checkC02Episode(o *episodeObs) {
 	}
 	// which granted branches committed locally?
 	committed := map[int64]bool{}
-	for _, t := range splitLocalTxns(j) {
+	ltxns := splitLocalTxns(j)
+	for _, t := range ltxns {
 		if t.committed && t.undoIns != nil {
 			if bid, ok := argInt(t.undoIns.Args[0]); ok {
+				committed[bid] = true
+			}
+		}
+	}
+	// a branch whose statements changed no row writes no undo log: it committed
+	// when the local transaction during which it was registered committed
+	for bid := range granted {
+		b := w.TC.FindBranch(bid)
+		if b == nil || committed[bid] {
+			continue
+		}
+		for _, t := range ltxns {
+			if t.committed && len(t.entries) > 0 && t.entries[0].Seq <= b.RegSeq && b.RegSeq <= t.commitSeq {
 				committed[bid] = true
 			}
 		}
